@@ -82,6 +82,7 @@ type Sim struct {
 	passAll   atomic.Bool
 	ksCalls   atomic.Int64    // keyspace-function entries (counted in every mode)
 	sites     map[string]bool // nil = all sites park; else only listed ones
+	siteFilter func(site string) bool // if set, decides which sites park (overrides sites)
 	Step      int
 	Log       []string // event log (controller decisions, notes)
 	logOn     bool
@@ -211,7 +212,7 @@ func (s *Sim) park(site string, spin bool) {
 	}
 	s.mu.Lock()
 	t := s.taskFor(g)
-	if t.Pass || (s.sites != nil && !s.sites[site] && !spin) {
+	if t.Pass || (s.siteFilter != nil && !spin && !s.siteFilter(site)) || (s.siteFilter == nil && s.sites != nil && !s.sites[site] && !spin) {
 		s.mu.Unlock()
 		return
 	}
